@@ -232,6 +232,8 @@ func pipeScript(c PipeCfg) string {
 	case "goanon":
 		// the stage is a function literal started by a go statement inside a helper: every call of the helper starts ITS closure
 		b.WriteString("spawn = func(inch, outch) {\n go func() {\n  for v in inch {\n   outch <- v + 10\n  }\n  close(outch)\n }()\n}\n")
+	case "fnvarspread":
+		b.WriteString("stage = func(tag, rest...) {\n for v in rest[0] {\n  rest[1] <- v + rest[2]\n }\n close(rest[1])\n}\n")
 	case "fn5":
 		b.WriteString("stage = func(tag, inch, outch, inc, zero) {\n for v in inch {\n  outch <- v + inc + zero\n }\n close(outch)\n}\n")
 	case "fnvar":
@@ -247,6 +249,11 @@ func pipeScript(c PipeCfg) string {
 	} else if c.Shape == "fn4spread" {
 		for k := 1; k <= c.NS; k++ {
 			fmt.Fprintf(&b, "a%d = [c%d, c%d, 10, %d]\ngo stage(a%d...)\na%d[2] = -1000\na%d[1] = nil\n", k, k-1, k, k, k, k, k)
+		}
+	} else if c.Shape == "fnvarspread" {
+		// go on a variadic function with a spread list: every element arrives as its own argument
+		for k := 1; k <= c.NS; k++ {
+			fmt.Fprintf(&b, "go stage(%d, [c%d, c%d, 10]...)\n", k, k-1, k)
 		}
 	} else if c.Shape == "goanon" {
 		for k := 1; k <= c.NS; k++ {
@@ -286,6 +293,10 @@ func pipeScript(c PipeCfg) string {
 		fmt.Fprintf(&b, "for v in %s {\n res += v\n}\n", last)
 	case "recvexpr":
 		fmt.Fprintf(&b, "for {\n v = (<-%s)\n if v == nil {\n  break\n }\n res += v\n}\n", last)
+	case "recvokout":
+		// the two-value receive sits in a function literal and a nested block; its targets live in the enclosing scope: they are UPDATED there
+		// (after the channel is closed and drained: ok false, the value variable untouched)
+		fmt.Fprintf(&b, "v = nil\nok = true\ndrain = func() {\n for {\n  if true {\n   v, ok = <-%s\n  }\n  if !ok {\n   break\n  }\n  res += v\n }\n}\ndrain()\nres += [v ?? -1, ok]\n", last)
 	case "recvok":
 		fmt.Fprintf(&b, "v = nil\nfor {\n v, ok = <-%s\n if !ok {\n  break\n }\n res += v\n}\n", last)
 	}
@@ -339,6 +350,13 @@ func pipe(in, out string, reps int, seed int64) {
 		exp := make([]interface{}, len(c.Expected))
 		for i, v := range c.Expected {
 			exp[i] = conv(c.Elem, v)
+		}
+		if c.Mode == "recvokout" {
+			if len(exp) > 0 {
+				exp = append(exp, exp[len(exp)-1], false)
+			} else {
+				exp = append(exp, int64(-1), false)
+			}
 		}
 		var expLog []interface{}
 		if c.GoArgs {
